@@ -177,6 +177,16 @@ def r2_include_order(ctx):
             ctx.check(ok, 'cfg-kept', 'every successfully parsed configuration is kept as its own entry for nodes created later (configurations are never folded into each other)',
                       inc.where_path(path), len(pushes))
         ctx.floor('successful paths of include_cfg', n, 1)
+        # ... and is applied to EVERY module that already exists (no pruning of subtrees: a wildcard below a parent gives the parent
+        # nothing and its children something)
+        scope_i = [inc] + P.closures_of(inc)
+        ws = [w for g_ in scope_i for w in per_item_calls(P, g_, CAP)]
+        if ctx.floor('capture_for over the existing modules in include_cfg', len(ws), 1):
+            for w in ws:
+                g_ = w.fn
+                conds = [a for s_, a in g_.guard_atoms(w.site.b) if a and a[0] in ('bool', 'cmp') and (w.form != 'loop' or s_ in g_.loops().get(w.anchor, ()))]
+                ctx.check(w.exhaustive and not conds, 'include-reaches-every-module',
+                          'include_cfg offers the new configuration to every existing module, unconditionally', w.site.where(), [show_atom(a) for a in conds][:4])
     for k in ('des::net::runtime::SimBuilder::raw', 'des::net::ndl::raw_ndl'):
         h = P.fns.get(k)
         if h:
